@@ -207,6 +207,26 @@ func main() {
 			if nthreads >= 3 {
 				want = append(want, []string{base[m[i].name]})
 			}
+			if rp := os.Getenv("SCHED_REPLAY"); rp != "" {
+				if name != only {
+					continue
+				}
+				var prefix []int
+				json.Unmarshal([]byte(rp), &prefix)
+				res, err := verifsched.Run(ops, prefix, 200000)
+				got, wantS := strings.Join(flatten(res.Obs), ";"), strings.Join(flatten(want), ";")
+				fmt.Printf("replay scenario %q schedule %v\n got  %s\n want %s\n", name, prefix, got, wantS)
+				if err != nil {
+					fmt.Println("REPLAY-DIVERGED:", err)
+					os.Exit(2)
+				}
+				if got != wantS || res.Panic != "" || dec.VerifSnapshot() != snap0 {
+					fmt.Println("REPLAY: interleaved execution differs from the sequential results")
+					os.Exit(1)
+				}
+				fmt.Println("REPLAY: property holds under this schedule")
+				os.Exit(0)
+			}
 			sr := scenarioResult{Name: name, Threads: len(ops)}
 			outcomes := map[string]bool{}
 			sites := map[int]bool{}
